@@ -26,10 +26,21 @@ import (
 	"verif/mc/rewrite"
 )
 
-const (
-	verifDir = "/verif"
-	repoDir  = "/repo"
-)
+const repoDir = "/repo"
+
+// verifDir is the root of the verification tree: the parent of the directory
+// holding this executable (bin/vcheck), so that a snapshot of /verif elsewhere
+// (vp run) builds and writes inside itself.
+var verifDir = func() string {
+	if exe, err := os.Executable(); err == nil {
+		if d := filepath.Dir(filepath.Dir(exe)); d != "" {
+			if _, err := os.Stat(filepath.Join(d, "worker")); err == nil {
+				return d
+			}
+		}
+	}
+	return "/verif"
+}()
 
 type build struct {
 	Name  string
